@@ -247,8 +247,8 @@ func CheckC06(r *core.Run) {
 		}
 	}
 	r.AddEvals(int64(total))
-	r.Extra["crash_images_opened_by_real_code"] = total
-	r.Extra["distinct_crash_observations"] = nobs
+	r.SetExtra("crash_images_opened_by_real_code", total)
+	r.SetExtra("distinct_crash_observations", nobs)
 	pqSample(r, traces)
 	judgePQ(r, traces, "C05")
 }
